@@ -24,6 +24,7 @@ func zzH_C02_fuzzy() {
 		res, pos = FuzzyMatchV2(cs, norm, fwd, &chars, pat, withPos, slab)
 	}
 	zzv.Reach("called")
+	zzObserveResult(res, pos)
 	if res.Start >= 0 {
 		zzv.Reach("matched")
 		zzv.Assert("range", 0 <= res.Start && res.Start <= res.End && res.End <= n)
